@@ -25,6 +25,16 @@ class Crash(Exception):
     """Raised at the symbolic crash point."""
 
 
+class Raises:
+    """behaviour marker: this version of the function raises"""
+
+    def __repr__(self):
+        return 'Raises'
+
+
+RAISES = Raises()
+
+
 class NotJson:
     def __repr__(self):
         return 'NotJson'
@@ -121,6 +131,8 @@ def run_body(b, body, side, sid='r'):
     function ('r' = root); statements get ids sid.i"""
     out = []
     w = side.world
+    if sid == 'r' and side.probe is not None:
+        side.probe(b, 'r:start')          # before anything else has been asked in this build
     for i, st in enumerate(body):
         _crash_here(side, sid, i)
         tag = st[0]
@@ -209,6 +221,8 @@ def _do_bf(b, st, side, sid):
         if mode == 'nonjson':
             return NotJson()
         if side.behaviour is not None:
+            if side.behaviour[sid] is RAISES:
+                raise _boom(side)
             r.append(side.behaviour[sid])
         return r
 
@@ -255,6 +269,8 @@ def _do_sb(b, st, side, sid):
         if mode == 'raise':
             raise _boom(side)
         if side.behaviour is not None:
+            if side.behaviour[sid] is RAISES:
+                raise _boom(side)
             r.append(side.behaviour[sid])
         return r
 
@@ -279,17 +295,26 @@ def _do_sb(b, st, side, sid):
 class Program:
     """A concrete statement tree plus the symbolic output contents."""
 
-    def __init__(self, eng, body):
+    def __init__(self, eng, body, shared=None):
         self.body = body
         self.content = {}
         self.functions = []
+        # build_file statements with an explicit function name are the same function wherever they occur
+        # (also in the program of another build): they write the same content
+        self.shared = shared if shared is not None else {}
         self._scan(eng, body, 'r')
 
     def _scan(self, eng, body, sid):
         for i, st in enumerate(body):
             c = '%s.%d' % (sid, i)
             if st[0] == 'BF':
-                self.content[c] = eng.fresh_int('out:' + c)
+                nm = st[2].get('name')
+                if nm is not None:
+                    if nm not in self.shared:
+                        self.shared[nm] = eng.fresh_int('out:name:' + nm)
+                    self.content[c] = self.shared[nm]
+                else:
+                    self.content[c] = eng.fresh_int('out:' + c)
                 self.functions.append((c, 'BF', st[1]))
                 self._scan(eng, st[3], c)
             elif st[0] == 'SB':
